@@ -286,7 +286,11 @@ fn run_case_inner(case: &Case, rep: &mut Report) -> Option<(String, String)> {
                     seen.insert(key, (prefix.clone(), name.clone()));
                     rep.bump("c18/addr_make_checked");
                     // other prefix => other address; and not valid under this codec
-                    let other_pfx = leak(&format!("{}x", &prefix[..prefix.len().min(82)]));
+                    let other_pfx = if prefix.len() < 83 {
+                        leak(&format!("{}x", prefix))
+                    } else {
+                        leak(&format!("{}{}", &prefix[..82], if prefix.ends_with('x') { "y" } else { "x" }))
+                    };
                     let o = AnyApi::new(v, other_pfx).make(name);
                     if o == a || any.api().addr_validate(&o).is_ok() {
                         fail!("different-prefix-same-or-valid-address", "{:?} name {:?}: prefix {:?} -> {}, prefix {:?} -> {}", v, name, prefix, a, other_pfx, o);
